@@ -171,6 +171,7 @@ func (c *c18) RunCase(w *core.Worker, idx int, seed uint64, res *core.CaseResult
 		}
 		if commitDS == "candidate" {
 			plans = append(plans, fp{2, "Discard", "error"}) // the edit fails and the discard that must follow fails as well
+			plans = append(plans, fp{2, "warn+", "error"})   // the edit is answered with a warning and the commit fails
 		}
 		if rng.Chance(1, 2) {
 			plans = append(plans, fp{1, "", "warning"}) // does not fail the Set: takes the place of the fault-free run
@@ -180,7 +181,11 @@ func (c *c18) RunCase(w *core.Worker, idx int, seed uint64, res *core.CaseResult
 				break
 			}
 			mark := drv.Mark()
-			if p.meth != "Discard" {
+			switch p.meth {
+			case "Discard":
+			case "warn+":
+				drv.ArmPlan(map[int]string{1: "warning", 2: "error"})
+			default:
 				drv.Arm(p.at, "", p.kind)
 			}
 			if p.kind == "warning" {
